@@ -445,6 +445,22 @@ func runProperty(w *World, res *checkResult, thorough bool, timeoutMs int) {
 			}
 		}
 	}
+	if p == "C14" {
+		// the yes/no answer of an expired timer is atomic with arming and stopping only because the running mark,
+		// the timer type and the installed stop channel are accessed under the timer mutex: those lock-discipline
+		// obligations are part of C14
+		n := 0
+		for _, o := range w.locksetObligations() {
+			if strings.Contains(o.Name, "#lock:ship.ShipConnection.handshakeTimer") {
+				o.Tags = append(o.Tags, "C14")
+				all = append(all, o)
+				n++
+			}
+		}
+		if n == 0 {
+			all = append(all, &Obligation{Name: "lock:ship.ShipConnection.handshakeTimer*", Fn: "lockset", Kind: "lock", Tags: []string{"C14"}, Goal: "false", Src: "no lock-discipline obligation on the handshake timer fields was generated: the fields are no longer declared guarded", Status: "sat", Solver: "syntactic"})
+		}
+	}
 	w.solve(all, timeoutMs, thorough, &res.Stats)
 	// group by name
 	groups := map[string]*oblGroup{}
